@@ -77,6 +77,7 @@ DECL = {
     "enum": "{p}enum Color:\n    Red\n    Green\n",
     "newtype": "{p}type UserId = newtype int\n",
     "trait": "{p}trait Named:\n    def name(self) -> str: ...\n",
+    "variant": "{p}enum Color:\n    Red\n    Green\n",
 }
 USE = {
     ("const", "lax"): "def main() -> None:\n    println({n})\n",
@@ -89,6 +90,7 @@ USE = {
     ("newtype", "ctor"): "def main() -> None:\n    u = {n}(4)\n    println(u.0)\n",
     ("newtype", "type"): "def f(u: {n}) -> int:\n    return u.0\n\ndef main() -> None:\n    pass\n",
     ("enum", "variant"): "def main() -> None:\n    c = {n}.Red\n",
+    ("variant", "lax"): "def main() -> None:\n    c = {n}\n",
     ("trait", "with"): "class C with {n}:\n    v: int\n    def name(self) -> str:\n        return \"c\"\n\ndef main() -> None:\n    pass\n",
 }
 
